@@ -150,15 +150,33 @@ Theorem flin_le_bounds_int_var :
 Proof. exact flin_le_bounds_int_var_ok. Qed.
 Print Assumptions flin_le_bounds_int_var.
 
-(* FloatLinNe: inert while two variables are not fixed in its own sense; and two ASSIGNED float variables (one step wide)
-   are not fixed in that sense: x - y != 0 accepts x = y = 0 *)
+(* FloatLinNe BEFORE the repair "disequalities are decided at the leaves of the search" (prune_flin_ne_prefix): inert while two
+   variables are not fixed in its own sense (|max - min| < 1e-12); and two ASSIGNED float variables (one step wide) are not fixed
+   in that sense: x - y != 0 accepted x = y = 0 *)
 Theorem float_ne_refuted :
-  (forall c c0 c1 v0 v1 k, ne_fixed_val (fst c) v0 = None -> ne_fixed_val (fst c) v1 = None -> prune_flin_ne [c0; c1] [v0; v1] k c = Some c) /\
+  (forall c c0 c1 v0 v1 k, ne_fixed_val (fst c) v0 = None -> ne_fixed_val (fst c) v1 = None -> prune_flin_ne_prefix [c0; c1] [v0; v1] k c = Some c) /\
   (fall_assigned w_ne_store = true /\
-   obs_ctx (prune_flin_ne [of_bits 0x3ff0000000000000; of_bits 0xbff0000000000000] [0%nat; 1%nat] (of_bits 0) (w_ne_store, [])) = obs_ctx (Some (w_ne_store, [])) /\
+   obs_ctx (prune_flin_ne_prefix [of_bits 0x3ff0000000000000; of_bits 0xbff0000000000000] [0%nat; 1%nat] (of_bits 0) (w_ne_store, [])) = obs_ctx (Some (w_ne_store, [])) /\
    map (fun b => match b with VlF x => to_bits x | VlI z => z end) (fsolution w_ne_store) = [0; 0]%Z).
 Proof. split. exact flin_ne_two_unfixed_is_noop. exact float_ne_refuted_ok. Qed.
 Print Assumptions float_ne_refuted.
+
+(* AFTER the repair: once every variable of the constraint is assigned in the SEARCH's sense (Var::is_assigned: the search will
+   not split it any more; the value a solution reports is var_value = the minimum) FloatLinNe decides the constraint on exactly
+   those values and changes nothing: it fails iff the binary64 sum of coeff * reported value lies within 1e-12 of the constant.
+   Hence no solution the search reports can have that sum equal to the constant.  On the former witness: x = y = 0 is rejected,
+   x = 0, y = 1e-6 is accepted. *)
+Theorem float_ne_decided_at_leaves : forall cs vs k c, Forall (fun v => var_assigned (fget (fst c) v) = true) vs ->
+  prune_flin_ne cs vs k c = if flt (fabs (fsub (reported_sum cs vs (fst c) c_zero) k)) c_ne_eq then None else Some c.
+Proof. exact flin_ne_decides_leaf. Qed.
+Print Assumptions float_ne_decided_at_leaves.
+Theorem float_ne_repaired :
+  prune_flin_ne [of_bits 0x3ff0000000000000; of_bits 0xbff0000000000000] [0%nat; 1%nat] (of_bits 0) (w_ne_store, []) = None /\
+  fall_assigned [VF w_ne_iv; VF w_ne_iv2] = true /\
+  obs_ctx (prune_flin_ne [of_bits 0x3ff0000000000000; of_bits 0xbff0000000000000] [0%nat; 1%nat] (of_bits 0) ([VF w_ne_iv; VF w_ne_iv2], []))
+    = obs_ctx (Some ([VF w_ne_iv; VF w_ne_iv2], [])).
+Proof. exact float_ne_repaired_ok. Qed.
+Print Assumptions float_ne_repaired.
 
 (* ---------------------------------------------------------------- non-vacuity *)
 (* x in [0,2] step 0.25 (float), y in {0,1,2} (int), x + y <= 2: the vocabulary hypothesis holds and the search returns (0.0, 0) *)
